@@ -328,6 +328,9 @@ def propagate_constants(tree: ast.Module) -> ast.Module:
     cls_consts: dict = {}
     for c in ast.walk(tree):
         if isinstance(c, ast.ClassDef):
+            # members of an enumeration are objects, not their raw values (`x is K.MEMBER`, `K.MEMBER == "raw"` is False for a plain Enum): never propagated
+            if any(re.search(r"Enum|Flag", ast.unparse(b)) for b in c.bases) or any(isinstance(k.value, ast.Name) and re.search(r"Enum", k.value.id) for k in c.keywords):
+                continue
             for st in c.body:
                 if isinstance(st, ast.Assign) and len(st.targets) == 1 and isinstance(st.targets[0], ast.Name) and _CONST_NAME.match(st.targets[0].id) and _pure_literal(st.value) \
                         and st.targets[0].id not in attr_stores and sum(1 for x in c.body if isinstance(x, ast.Assign) and any(isinstance(t, ast.Name) and t.id == st.targets[0].id for t in x.targets)) == 1:
